@@ -253,6 +253,19 @@ def build(reg, src):
            ensures=[lambda s, r: And(s.g('through_setitem') == 1, s.g('direct_context_writes') == 0), lambda s, r: same(r, s.v0)])
     reg.extra_checks.append(check_templates)
     reg.extra_checks.append(check_positional)
+
+    def compile_sequences(ctx):
+        from pyvc.run import run_replay
+        import replay.c05 as rp5
+        r = run_replay(lambda inputs, name: dict(rows=rp5.sequence_rows()), {}, 'compile-sequences', timeout_s=120)
+        rows_ = r.get('rows') if isinstance(r, dict) else None
+        if not rows_:
+            return [dict(name='compile-sequences(bounded)::harness', ok=False, undecided=True, backend='native-execution (bounded)', detail=str(r)[:300])]
+        return [dict(name=f"compile-sequences(bounded)::{g}", ok=bool(ok), backend='native-execution (bounded)', detail=d, confirmed=not ok) for g, ok, d in rows_]
+    compile_sequences.__name__ = 'compile-sequences'
+    reg.extra_checks.append(compile_sequences)
+    reg.bounded.append(dict(check='compile-sequences', tool='native execution: compiled run vs interpreted run (compile_expr stubbed) of expression sequences in one interpreter',
+                            bound='5 sequences of same-shape expressions with the variables in different orders', result='see rows'))
     from contracts import c05_values
     reg.extra_checks.append(c05_values.check_value_equivalence)
     from replay import c05 as rp
